@@ -102,44 +102,27 @@ Theorem C04_cp_mode_dot_vector_contract : forall (F : Type) (Op : fops F),
 Proof. exact @cp_mode_dot_vector_contract. Qed.
 Print Assumptions C04_cp_mode_dot_vector_contract.
 
-(* --- input forms (CPTensor object / plain (weights, factors) tuple, weights None): the theorems above are about the core
-   functions; cp_mode_dot_api / cp_flip_sign_api model how the entry points treat the form of their operand on the current tree *)
-Theorem C04_cp_mode_dot_api_partial : forall (F : Type) (Op : fops F) (is_class copy : bool) (w : list F) (fs : list (mat F))
+(* --- input forms (CPTensor object / plain (weights, factors) tuple, weights None, copy on / off), repaired tree (/repo 98aff0c, 85a028b):
+   every form of the operand is the core function on the given weights, ones standing for None; hence all the theorems above
+   (entry preservation, canonical form, mode products) hold for every form, with w := weights_or_ones w fs *)
+Theorem C04_cp_mode_dot_api : forall (F : Type) (Op : fops F) (is_class copy : bool) (w : option (list F)) (fs : list (mat F))
   (x : operand) (mode : nat) (kd : bool),
-  is_class = true \/ copy = true ->
-  cp_mode_dot_api Op is_class copy (Some w) fs x mode kd = cp_mode_dot Op w fs x mode kd.
-Proof. exact @cp_mode_dot_api_ok. Qed.
-Print Assumptions C04_cp_mode_dot_api_partial.
+  cp_mode_dot_api Op is_class copy w fs x mode kd = cp_mode_dot Op (weights_or_ones Op w fs) fs x mode kd.
+Proof. exact @cp_mode_dot_api_all. Qed.
+Print Assumptions C04_cp_mode_dot_api.
 
-(* genuine defect: a plain tuple with copy=False (the default) raises AttributeError although the product is well defined *)
-Theorem C04_cp_mode_dot_tuple_refuted :
-  exists (w : list Z) (fs : list (mat Z)) (M : mat Z) r,
-    cp_mode_dot Zops w fs (OpMat M) 0 false = Ok r /\
-    cp_mode_dot_api Zops false false (Some w) fs (OpMat M) 0 false = Err.
-Proof. exact cp_mode_dot_api_tuple_refuted. Qed.
-Print Assumptions C04_cp_mode_dot_tuple_refuted.
-
-(* genuine defect: (None, factors) with copy=True is rejected although the same tensor as a CPTensor object is accepted *)
-Theorem C04_cp_mode_dot_none_weights_refuted :
-  exists (fs : list (mat Z)) (M : mat Z) r,
-    cp_mode_dot_api Zops true true None fs (OpMat M) 0 false = Ok r /\
-    cp_mode_dot_api Zops false true None fs (OpMat M) 0 false = Err.
-Proof. exact cp_mode_dot_api_none_refuted. Qed.
-Print Assumptions C04_cp_mode_dot_none_weights_refuted.
-
-Theorem C04_cp_flip_sign_api_partial : forall (F : Type) (Op : fops F) (is_class : bool) (summ : list F -> F) (w : list F)
+Theorem C04_cp_flip_sign_api : forall (F : Type) (Op : fops F) (is_class : bool) (summ : list F -> F) (w : option (list F))
   (fs : list (mat F)) (mode : nat),
-  cp_flip_sign_api Op is_class summ (Some w) fs mode = cp_flip_sign Op summ w fs mode.
-Proof. exact @cp_flip_sign_api_some. Qed.
-Print Assumptions C04_cp_flip_sign_api_partial.
+  cp_flip_sign_api Op is_class summ w fs mode = cp_flip_sign Op summ (weights_or_ones Op w fs) fs mode.
+Proof. exact @cp_flip_sign_api_all. Qed.
+Print Assumptions C04_cp_flip_sign_api.
 
-(* genuine defect: cp_flip_sign((None, factors)) raises TypeError although the CPTensor object with the same content is accepted *)
-Theorem C04_cp_flip_sign_none_weights_refuted :
-  exists (fs : list (mat Z)) r,
-    cp_flip_sign_api Zops true (col_sum Zops) None fs 0 = Ok r /\
-    cp_flip_sign_api Zops false (col_sum Zops) None fs 0 = Err.
-Proof. exact cp_flip_sign_api_none_refuted. Qed.
-Print Assumptions C04_cp_flip_sign_none_weights_refuted.
+Example C04_nonvacuous_forms :
+  cp_mode_dot_api Zops false false None [[[1; 2]; [3; 4]]; [[5; 6]]]%Z (OpMat [[1; 1]]%Z) 0 false
+    = Ok ([1; 1]%Z, [[[4; 6]]; [[5; 6]]]%Z) /\
+  cp_flip_sign_api Zops false (col_sum Zops) None [[[1; -2]; [3; -4]]; [[-5; 6]]]%Z 0
+    = Ok ([1; 1]%Z, [[[-1; -2]; [-3; -4]]; [[5; 6]]]%Z).
+Proof. split; vm_compute; reflexivity. Qed.
 
 (* --- cp_normalize over R; the square roots are data with the contract norms_ok *)
 Theorem C04_cp_normalize_entry : forall (tape : list (list R)) (w : list R) (fs : list (mat R)) w' fs' (idx : list nat),
@@ -159,11 +142,30 @@ Theorem C04_cp_normalize_canonical : forall (tape : list (list R)) (w : list R) 
 Proof. exact cp_normalize_canonical. Qed.
 Print Assumptions C04_cp_normalize_canonical.
 
-(* --- pad_tt_rank: chains of any length, any bond ranks, any padding; tt_entry / tr_entry are entry (0,0) / the trace of
-   G_1[:, j_1, :] ... G_N[:, j_N, :];  chain_ok r cores: order-3 cores whose bond dimensions match, the first one being r *)
+(* --- pad_tt_rank: chains of any length, any bond ranks, any padding, cores of any order r1 :: mid ++ [r2] (tensor train, TT-matrix);
+   tt_chain cores idx a b is entry (a,b) of G_1[:, js_1, :] ... G_N[:, js_N, :];  chain_ok r cores: cores of order >= 2 whose bond
+   dimensions match, the first one being r;  mids_ok: one in-range multi-index per core *)
+Theorem C04_pad_tt_rank_chain_entry : forall (F : Type) (Op : fops F), ring_theory (f0 Op) (f1 Op) (fadd Op) (fmul Op) (fsub Op) (fopp Op) (@eq F) ->
+  forall (cores : list (tensor F)) (npad : nat) (pb : bool) (cores' : list (tensor F)) (idx : list (list nat)) (r : nat),
+  pad_tt_rank Op cores npad pb = Ok cores' -> cores <> [] -> chain_ok r cores -> mids_ok cores idx ->
+  0 < r -> 0 < last_r2 r cores ->
+  tt_chain Op cores' idx 0 0 = tt_chain Op cores idx 0 0.
+Proof. exact @pad_chain_entry. Qed.
+Print Assumptions C04_pad_tt_rank_chain_entry.
+
+Theorem C04_pad_tt_rank_chain_trace : forall (F : Type) (Op : fops F), ring_theory (f0 Op) (f1 Op) (fadd Op) (fmul Op) (fsub Op) (fopp Op) (@eq F) ->
+  forall (cores : list (tensor F)) (npad : nat) (pb : bool) (cores' : list (tensor F)) (idx : list (list nat)) (r : nat),
+  pad_tt_rank Op cores npad pb = Ok cores' -> cores <> [] -> chain_ok r cores -> mids_ok cores idx ->
+  last_r2 r cores = r ->
+  sumn Op (core_r1 (hd (mk [] []) cores')) (fun a => tt_chain Op cores' idx a a) =
+  sumn Op (core_r1 (hd (mk [] []) cores)) (fun a => tt_chain Op cores idx a a).
+Proof. exact @pad_chain_trace. Qed.
+Print Assumptions C04_pad_tt_rank_chain_trace.
+
+(* order-3 cores: tt_entry / tr_entry are the entries of the dense tensor of a tensor train / tensor ring *)
 Theorem C04_pad_tt_rank_tt_entry : forall (F : Type) (Op : fops F), ring_theory (f0 Op) (f1 Op) (fadd Op) (fmul Op) (fsub Op) (fopp Op) (@eq F) ->
   forall (cores : list (tensor F)) (npad : nat) (pb : bool) (cores' : list (tensor F)) (idx : list nat) (r : nat),
-  pad_tt_rank Op cores npad pb = Ok cores' -> cores <> [] -> chain_ok r cores -> inb (tt_shape cores) idx ->
+  pad_tt_rank Op cores npad pb = Ok cores' -> cores <> [] -> chain_ok r cores -> order3 cores -> inb (tt_shape cores) idx ->
   0 < r -> 0 < last_r2 r cores ->
   tt_entry Op cores' idx = tt_entry Op cores idx.
 Proof. exact @pad_tt_entry. Qed.
@@ -171,7 +173,7 @@ Print Assumptions C04_pad_tt_rank_tt_entry.
 
 Theorem C04_pad_tt_rank_tr_entry : forall (F : Type) (Op : fops F), ring_theory (f0 Op) (f1 Op) (fadd Op) (fmul Op) (fsub Op) (fopp Op) (@eq F) ->
   forall (cores : list (tensor F)) (npad : nat) (pb : bool) (cores' : list (tensor F)) (idx : list nat) (r : nat),
-  pad_tt_rank Op cores npad pb = Ok cores' -> cores <> [] -> chain_ok r cores -> inb (tt_shape cores) idx ->
+  pad_tt_rank Op cores npad pb = Ok cores' -> cores <> [] -> chain_ok r cores -> order3 cores -> inb (tt_shape cores) idx ->
   last_r2 r cores = r ->
   tr_entry Op cores' idx = tr_entry Op cores idx.
 Proof. exact @pad_tr_entry. Qed.
@@ -182,8 +184,8 @@ Theorem C04_pad_tt_rank_shapes : forall (F : Type) (Op : fops F) (cores : list (
   (cores' : list (tensor F)) (k : nat) (d : tensor F),
   pad_tt_rank Op cores npad pb = Ok cores' -> k < length cores ->
   length cores' = length cores /\
-  shape (nth k cores' d) = [core_r1 (nth k cores d) + lpad (length cores) npad pb k; core_n (nth k cores d);
-                            core_r2 (nth k cores d) + rpad (length cores) npad pb k].
+  shape (nth k cores' d) = core_r1 (nth k cores d) + lpad (length cores) npad pb k :: core_mid (nth k cores d) ++
+                           [core_r2 (nth k cores d) + rpad (length cores) npad pb k].
 Proof. exact @pad_tt_rank_shapes. Qed.
 Print Assumptions C04_pad_tt_rank_shapes.
 
@@ -301,6 +303,22 @@ Theorem C04_svd_compress_slice : forall (F : Type) (Op : fops F), ring_theory (f
 Proof. exact @compress_slice_entry. Qed.
 Print Assumptions C04_svd_compress_slice.
 
+(* compress, fit, decompress: if a PARAFAC2 tensor represents the score matrix of slice i exactly, the decompressed tensor
+   represents the original slice (every singular value kept; the SVD answer is data with its contract U diag(s) Vh = X) *)
+Theorem C04_svd_compress_decompress_roundtrip : forall (F : Type) (Op : fops F), ring_theory (f0 Op) (f1 Op) (fadd Op) (fmul Op) (fsub Op) (fopp Op) (@eq F) ->
+  forall (rl : nat) (thr : F) (X U : mat F) (s : list F) (Vh score Lm : mat F) (w : list F) (A B C : mat F) (Ps : list (mat F))
+    (Ls : list (option (mat F))) w' A' B' C' Ps' (i j k : nat),
+  compress_slice Op rl thr X (U, s, Vh) = (score, Some Lm) ->
+  count_kept Op thr s = length s -> length Vh = length s -> rectb (length s) U = true ->
+  mget Op X j k = sumn Op (length s) (fun t => fmul Op (mget Op U j t) (fmul Op (vget Op s t) (mget Op Vh t k))) ->
+  svd_decompress Op w A B C Ps Ls = Ok (w', [A'; B'; C'], Ps') -> i < length Ps -> nth i Ls None = Some Lm ->
+  length (nth i Ps []) = length score -> length B <= ncols (nth i Ps []) ->
+  (forall t, t < length score -> pf2_entry Op w A B C Ps i t k = mget Op score t k) ->
+  j < length U -> k < ncols score ->
+  pf2_entry Op w' A' B' C' Ps' i j k = mget Op X j k.
+Proof. exact @compress_decompress_roundtrip. Qed.
+Print Assumptions C04_svd_compress_decompress_roundtrip.
+
 (* --- non-vacuity: the hypotheses are satisfiable and the model computes *)
 Example C04_nonvacuous_ring :
   cp_permute Zops [1; 0] [2; 3]%Z [[[1; 2]; [3; 4]]; [[5; 6]; [7; 8]]]%Z
@@ -329,7 +347,12 @@ Example C04_nonvacuous_tt :
   tt_entry Zops [G1; G2] [1; 0] = 43%Z /\
   pad_tt_rank Zops [mk [1; 2; 1] [3; 4]%Z] 2 false = Ok [mk [1; 2; 1] [3; 4]%Z] /\
   pad_tt_rank Zops [mk [2; 1; 2] [1; 2; 3; 4]%Z] 1 true = Ok [mk [3; 1; 3] [1; 2; 0; 3; 4; 0; 0; 0; 0]%Z] /\
-  tr_entry Zops [mk [2; 1; 2] [1; 2; 3; 4]%Z] [0] = 5%Z.
+  tr_entry Zops [mk [2; 1; 2] [1; 2; 3; 4]%Z] [0] = 5%Z /\
+  (* TT-matrix cores (r1, m, n, r2) *)
+  pad_tt_rank Zops [mk [1; 1; 2; 2] [1; 2; 3; 4]%Z; mk [2; 1; 1; 1] [5; 6]%Z] 1 false
+    = Ok [mk [1; 1; 2; 3] [1; 2; 0; 3; 4; 0]%Z; mk [3; 1; 1; 1] [5; 6; 0]%Z] /\
+  mids_ok [mk [1; 1; 2; 2] [1; 2; 3; 4]%Z; mk [2; 1; 1; 1] [5; 6]%Z] [[0; 1]; [0; 0]] /\
+  tt_chain Zops [mk [1; 1; 2; 2] [1; 2; 3; 4]%Z; mk [2; 1; 1; 1] [5; 6]%Z] [[0; 1]; [0; 0]] 0 0 = 39%Z.
 Proof. cbv zeta. repeat split; vm_compute; first [reflexivity | lia]. Qed.
 
 Example C04_nonvacuous_tucker :
